@@ -160,6 +160,9 @@ def run(ctx):
     # premise: instantiation (Quantified.unquantify / substitute) replaces exactly the occurrences of the bound variable (C15)
     from checks import c15 as _c15
     ctx.restate(_c15.run, 'C15.', 'C04.subst.', keep=lambda n: 'substitute' in n or 'unquantify' in n or 'rshift' in n)
+    # premise: the helper caches the rule bodies read (WorldIndex, NodeConsts, NodesWorlds, FilterNodeCache ...) describe THIS branch: listeners interpreted from source, forks copy and never alias
+    from checks import helpers_ob as _hob
+    _hob.helper_obligations(ctx, 'C04')
     ctx.samples = [dict(obligation=r.name, where=r.where, status=r.status, meta={k: v for k, v in r.meta.items() if k in ('node', 'designation', 'schema', 'direction', 'kind')})
                    for r in ctx.results if r.name.endswith('.forward')][:5]
     ctx.replayers['C04.'] = lambda r: replay(dict(obligation=r.name, counterexample=r.cex, meta=r.meta))
